@@ -3,6 +3,7 @@ package main
 // SCHEMA, CODEC, BASE10 (C10) and the wiring rules SCALEWIRE (C13), CIRCLEWIRE (C14), ADDDEGREE (C15).
 
 import (
+	"go/constant"
 	"fmt"
 	"go/token"
 	"go/types"
@@ -461,7 +462,41 @@ func ruleCodec(c *Ctx) {
 				}
 			}
 		})
-		c.check(a && mark, fname(fn), c.pos(fn.Pos()), fname(fn), "letter, accidental, `m` when minor", "Key.String no longer prints letter + accidental + `m` for minor keys")
+		// the order of the three parts, decided by folding the printer on all 42 (letter, accidental, mode) combinations
+		names, accs := c.enumConsts("note", "Name"), c.enumConsts("op", "Accidental")
+		accText := map[string]string{"Natural": "", "Sharp": "#", "Flat": "b"}
+		orderProblem, folded := "", 0
+		for _, l := range specLetters {
+			for an, at := range accText {
+				for _, minor := range []bool{false, true} {
+					recv := fval{fields: map[string]fval{
+						"Name":       {k: constant.MakeInt64(names[l])},
+						"Accidental": {k: constant.MakeInt64(accs[an])},
+						"Minor":      {k: constant.MakeBool(minor)},
+					}}
+					r, err := c.newFolder().foldCall(fn, []fval{recv})
+					if err != nil || r.k == nil || r.k.Kind() != constant.String {
+						continue
+					}
+					folded++
+					want := l + at
+					if minor {
+						want += "m"
+					}
+					if got := constant.StringVal(r.k); got != want {
+						orderProblem = fmt.Sprintf("the key %s %s minor=%v prints as %q, want %q (ParseKey reads letter, accidental, minor mark in this order)", l, an, minor, got, want)
+					}
+				}
+			}
+		}
+		if folded > 0 && folded < 42 {
+			orderProblem = fmt.Sprintf("the printer folds for %d of 42 keys only", folded)
+		}
+		how := "letter, accidental, `m` when minor"
+		if folded == 42 {
+			how += " (printed text folded for all 42 keys)"
+		}
+		c.check(a && mark && orderProblem == "", fname(fn), c.pos(fn.Pos()), fname(fn), how, "Key.String no longer prints letter + accidental + `m` for minor keys: "+orderProblem)
 	}
 	if fn := c.fn("op", "ParseKey"); fn != nil {
 		c.site(1)
